@@ -238,6 +238,19 @@ def run_unit(unit, ctx):
                         cmds.append(eb.s_cmd(sn, x))
                 else:
                     cmds.append(eb.m_cmd(pt["dt"], x, u))
+            # the same process goes on with another calibration (a second filter of the same generated type,
+            # a refined calibration without a restart): the generated functions must follow it
+            cm2 = None
+            if defn["calibration"] and which == "ekf":
+                cm2 = {k_: v_ * 1.25 + 0.37 for k_, v_ in defn["calibration_map"].items()}
+                env2 = dict(pts[0], **cm2)
+                if gen.max_exp_argument(defn, env2) > gen.EXP_ARG_LIMIT or gen.near_kink(defn, env2):
+                    cm2 = None
+            if cm2 is not None:
+                cmds.append(eb.cal_cmd(cm2))
+                cmds.append(eb.f_cmd(pts[0]["dt"], {s: pts[0][s] for s in defn["state"]}, {c: pts[0][c] for c in defn["control"]}))
+                for sn in eb.sensors:
+                    cmds.append(eb.s_cmd(sn, {s: pts[0][s] for s in defn["state"]}))
             res = eb.run(cmds, valgrind=False)
             if res["sanitizer"] or res["rc"] != 0 or not res["lines"] or res["lines"][-1] != ["DONE"]:
                 key = "cpp:layout-mismatch" if "LAYOUT-MISMATCH" in res["out"] else "cpp:sanitizer-or-crash"
@@ -280,6 +293,21 @@ def run_unit(unit, ctx):
                     v["witness"].update(point=pt, **w)
                 R.add(vs)
                 R.evals += 1
+            if cm2 is not None and pos < len(lines) and lines[pos][:1] == ["CAL"]:
+                pos += 1
+                tf = lines[pos]
+                pos += 1
+                stoks = {}
+                for sn in eb.sensors:
+                    stoks[sn] = lines[pos]
+                    pos += 1
+                orc2 = O.Oracle(dict(defn, calibration_map=cm2))
+                vs = compare_outputs(R, eb, defn, orc2, pts[0], tf, stoks, f"[{compiler}, cse={cse}, second calibration in the same process]")
+                for v in vs:
+                    v["witness"].update(point=pts[0], calibration_map=cm2, **w)
+                R.add(vs)
+                R.evals += 1
+                R.stats.inc("second_calibration_in_same_process")
             if not R.samples and which == "ekf":
                 f, G, Vm, M = eb.parse_f(lines[0])
                 R.samples.append({"definition": K.brief_defn(defn), "cse": cse, "compiler": compiler, "point": pts[0],
